@@ -190,3 +190,682 @@ Proof.
   destruct (split_not_in_prefix _ _ _ _ _ H (nonfree_send_not_before_node us k m F)) as [l1' [E1 _]].
   apply Hn. rewrite E1. apply in_or_app. left. apply persist_in_before_node. exact Hu.
 Qed.
+
+(* ------------------------------------------------------------------ *)
+(* setFastApply: false exactly when the update carries a snapshot or the committed range
+   overlaps the range still to be saved *)
+
+Lemma contig_from_bounds : forall es i e,
+  contig_from i es = true -> In e es -> i <= e_index e /\ e_index e < i + N.of_nat (length es).
+Proof.
+  induction es as [|a es IH]; intros i e H Hin; [destruct Hin|].
+  simpl in H. apply andb_true_iff in H. destruct H as [H1 H2]. apply N.eqb_eq in H1.
+  destruct Hin as [Hin|Hin].
+  - subst. cbn [length]. lia.
+  - destruct (IH _ _ H2 Hin). cbn [length]. lia.
+Qed.
+
+Lemma contig_from_has : forall es i x,
+  contig_from i es = true -> i <= x -> x < i + N.of_nat (length es) ->
+  exists e, In e es /\ e_index e = x.
+Proof.
+  induction es as [|a es IH]; intros i x H Hl Hu.
+  - cbn [length] in Hu. lia.
+  - simpl in H. apply andb_true_iff in H. destruct H as [H1 H2]. apply N.eqb_eq in H1.
+    destruct (N.eq_dec x i) as [E|E].
+    + exists a. split; [left; reflexivity|]. congruence.
+    + destruct (IH (i + 1) x H2) as [e [He1 He2]]; [lia| cbn [length] in Hu; lia|].
+      exists e. split; [right; exact He1|exact He2].
+Qed.
+
+Lemma last_in : forall (es : list ent) d, es <> [] -> In (last es d) es.
+Proof.
+  induction es as [|a es IH]; intros d H; [congruence|].
+  destruct es as [|b es]; [left; reflexivity|].
+  right. apply IH. discriminate.
+Qed.
+
+Lemma contig_from_last : forall es i,
+  es <> [] -> contig_from i es = true -> last_index es = i + N.of_nat (length es) - 1.
+Proof.
+  induction es as [|a es IH]; intros i Hne H; [congruence|].
+  simpl in H. apply andb_true_iff in H. destruct H as [H1 H2]. apply N.eqb_eq in H1.
+  destruct es as [|b es].
+  - unfold last_index. cbn. lia.
+  - unfold last_index in *. change (last (a :: b :: es) ent0) with (last (b :: es) ent0).
+    rewrite (IH (i + 1)); [|discriminate|exact H2]. cbn [length]. lia.
+Qed.
+
+Lemma existsb_false_r : forall {A B} (l : list A) (f : A -> B -> bool),
+  existsb (fun x => existsb (f x) []) l = false.
+Proof. induction l; simpl; auto. Qed.
+
+Lemma ranges_overlap_iff : forall a b,
+  ranges_overlap a b = true <-> exists x y, In x a /\ In y b /\ e_index x = e_index y.
+Proof.
+  intros a b. unfold ranges_overlap. rewrite existsb_exists. split.
+  - intros [x [Hx H]]. apply existsb_exists in H. destruct H as [y [Hy E]].
+    apply N.eqb_eq in E. eauto.
+  - intros [x [y [Hx [Hy E]]]]. exists x. split; [exact Hx|].
+    apply existsb_exists. exists y. split; [exact Hy|]. apply N.eqb_eq. exact E.
+Qed.
+
+Lemma set_fast_apply_false_iff_proved : forall snap commit committed save,
+  contig committed = true -> contig save = true ->
+  validate_update commit committed save = true ->
+  (set_fast_apply snap committed save = false <->
+   snap <> 0 \/ ranges_overlap committed save = true).
+Proof.
+  intros snap commit committed save Hc Hs Hv.
+  unfold set_fast_apply.
+  destruct (snap =? 0) eqn:Z; cbn [negb].
+  2:{ apply N.eqb_neq in Z. split; [intros _; left; exact Z|reflexivity]. }
+  apply N.eqb_eq in Z.
+  destruct committed as [|c cs].
+  { split; [discriminate|]. intros [H|H]; [congruence|]. cbn in H. discriminate. }
+  destruct save as [|f ss].
+  { split; [discriminate|]. intros [H|H]; [congruence|].
+    unfold ranges_overlap in H. rewrite existsb_false_r in H. discriminate. }
+  unfold validate_update in Hv. apply andb_true_iff in Hv. destruct Hv as [_ Hv].
+  apply negb_true_iff in Hv. apply N.ltb_ge in Hv.
+  unfold contig, first_index in Hc, Hs. cbn [hd] in Hc, Hs.
+  assert (Hla := contig_from_last (c :: cs) (e_index c) ltac:(discriminate) Hc).
+  assert (Hls := contig_from_last (f :: ss) (e_index f) ltac:(discriminate) Hs).
+  unfold first_index. cbn [hd].
+  rewrite ranges_overlap_iff.
+  split.
+  - intros H. apply negb_false_iff in H. apply andb_true_iff in H. destruct H as [H1 H2].
+    apply N.leb_le in H1. apply N.leb_le in H2. right.
+    exists (last (c :: cs) ent0).
+    destruct (contig_from_has (f :: ss) (e_index f) (last_index (c :: cs)) Hs) as [y [Hy Ey]].
+    + exact H1.
+    + rewrite Hls in H2. cbn [length] in *. lia.
+    + exists y. split; [apply last_in; discriminate|]. split; [exact Hy|].
+      unfold last_index in Ey. congruence.
+  - intros [H|[x [y [Hx [Hy E]]]]]; [congruence|].
+    apply negb_false_iff. apply andb_true_iff.
+    destruct (contig_from_bounds _ _ _ Hc Hx) as [Bx1 Bx2].
+    destruct (contig_from_bounds _ _ _ Hs Hy) as [By1 By2].
+    split; [apply N.leb_le|apply N.leb_le; exact Hv].
+    rewrite Hla. unfold first_index in *. cbn [hd length] in *. lia.
+Qed.
+
+(* ------------------------------------------------------------------ *)
+(* apply_not_before_persist *)
+
+Lemma wf_update_parts : forall u, wf_update u = true ->
+  contig (u_save u) = true /\ contig (u_committed u) = true /\
+  validate_update (hs_commit (u_state u)) (u_committed u) (u_save u) = true /\
+  u_fast u = set_fast_apply (u_snap_index u) (u_committed u) (u_save u).
+Proof.
+  intros u H. unfold wf_update in H.
+  repeat (apply andb_true_iff in H; destruct H as [H ?]).
+  repeat split; auto. apply eqb_prop. assumption.
+Qed.
+
+Lemma push_apply_not_elsewhere : forall us k es,
+  ~ In (PushApply k es) (StepNodes :: []) /\
+  ~ In (PushApply k es) (free_part us) /\ ~ In (PushApply k es) (save_part us) /\
+  ~ In (PushApply k es) (flag_part us) /\ ~ In (PushApply k es) (node_part us).
+Proof.
+  intros. repeat split; intros H.
+  - destruct H as [H|[]]. discriminate.
+  - apply in_free_part in H. destruct H as [u [m [_ [_ [_ E]]]]]. discriminate.
+  - apply in_map_iff in H. destruct H as [u [E _]]. discriminate.
+  - apply in_flag_part in H. destruct H as [u [_ E]]. discriminate.
+  - apply in_node_part in H. destruct H as [u [_ H]]. apply in_node_effects in H.
+    destruct H as [H|[H|[m [_ [_ H]]]]]; discriminate.
+Qed.
+
+Lemma apply_not_before_persist_proved : forall us n l1 k es l2,
+  (forall u, In u us -> wf_update u = true) ->
+  firstn n (process_step us) = l1 ++ PushApply k es :: l2 ->
+  exists u, In u us /\ ukey u = k /\ es = u_committed u /\
+    (ranges_overlap es (u_save u) = true -> In (Persist u) l1).
+Proof.
+  intros us n l1 k es l2 Hwf H.
+  apply firstn_split_full in H. remember (l2 ++ skipn n (process_step us)) as tl eqn:Etl. clear Etl.
+  rewrite process_step_shape in H.
+  destruct (push_apply_not_elsewhere us k es) as [N0 [N1 [N2 [N3 N4]]]].
+  (* StepNodes *)
+  destruct l1 as [|e0 l1]; [simpl in H; discriminate|].
+  simpl in H. injection H as He0 H. subst e0.
+  (* either in the fast part or after it *)
+  apply app_eq_app in H. destruct H as [l [[E1 E2]|[E1 E2]]].
+  - (* inside the fast part: fast_part = l1 ++ l, l ++ rest = PushApply :: tl *)
+    destruct l as [|e l].
+    + (* boundary case: the fast part ends exactly before it; then it is not in the fast part *)
+      simpl in E2. rewrite app_nil_r in E1. subst l1.
+      destruct (split_not_in_prefix _ _ _ [] _ E2 N1) as [la [Ea Eb]].
+      symmetry in Ea. apply app_eq_nil in Ea. destruct Ea as [Ea1 Ea2]. subst la.
+      simpl in Eb.
+      destruct (split_not_in_prefix _ _ _ [] _ (eq_sym Eb) N2) as [lb [Ec Ed]].
+      symmetry in Ec. apply app_eq_nil in Ec. destruct Ec as [Ec1 Ec2]. subst lb. simpl in Ed.
+      destruct (split_not_in_prefix _ _ _ [] _ (eq_sym Ed) N3) as [lc [Ee Ef]].
+      symmetry in Ee. apply app_eq_nil in Ee. destruct Ee as [Ee1 Ee2]. subst lc. simpl in Ef.
+      assert (Hin : In (PushApply k es) (slow_part us)).
+      { assert (Hin' : In (PushApply k es) (slow_part us ++ node_part us))
+          by (rewrite Ef; left; reflexivity).
+        apply in_app_or in Hin'. destruct Hin' as [?|?]; [assumption|contradiction]. }
+      apply in_slow_part in Hin. destruct Hin as [u [Hu Hin]].
+      apply in_apply_effects in Hin. destruct Hin as [_ [[Hx _]|[Hx _]]]; [discriminate|].
+      injection Hx as Hk He. exists u. repeat split; auto.
+      intros _. exfalso.
+      unfold save_part in Ec1. apply map_eq_nil in Ec1. subst us. destruct Hu.
+    + simpl in E2. injection E2 as Ee E2. subst e.
+      assert (Hin : In (PushApply k es) (fast_part us))
+        by (rewrite E1; apply in_or_app; right; left; reflexivity).
+      apply in_fast_part in Hin. destruct Hin as [u [Hu Hin]].
+      apply in_apply_effects in Hin. destruct Hin as [Hfast [[Hx _]|[Hx _]]]; [discriminate|].
+      injection Hx as Hk He. exists u. repeat split; auto.
+      intros Hov. exfalso.
+      destruct (wf_update_parts u (Hwf u Hu)) as [Hs [Hc [Hv Hf]]].
+      rewrite Hfast in Hf. symmetry in Hf.
+      assert (Hfalse : set_fast_apply (u_snap_index u) (u_committed u) (u_save u) = false).
+      { apply (set_fast_apply_false_iff_proved _ _ _ _ Hc Hs Hv). right. subst es. exact Hov. }
+      congruence.
+  - (* l1 extends beyond the fast part: fast_part ++ l = l1 *)
+    subst l1.
+    assert (Hrest : free_part us ++ save_part us ++ flag_part us ++ slow_part us ++ node_part us =
+                    l ++ PushApply k es :: tl) by exact E2.
+    destruct (split_not_in_prefix _ _ _ _ _ (eq_sym Hrest) N1) as [la [Ea Eb]].
+    destruct (split_not_in_prefix _ _ _ _ _ (eq_sym Eb) N2) as [lb [Ec Ed]].
+    destruct (split_not_in_prefix _ _ _ _ _ (eq_sym Ed) N3) as [lc [Ee Ef]].
+    (* now in slow_part ++ node_part *)
+    assert (Hin : In (PushApply k es) (slow_part us)).
+    { assert (Hin' : In (PushApply k es) (slow_part us ++ node_part us))
+        by (rewrite Ef; apply in_or_app; right; left; reflexivity).
+      apply in_app_or in Hin'. destruct Hin' as [?|?]; [assumption|contradiction]. }
+    apply in_slow_part in Hin. destruct Hin as [u [Hu Hin]].
+    apply in_apply_effects in Hin. destruct Hin as [_ [[Hx _]|[Hx _]]]; [discriminate|].
+    injection Hx as Hk He. exists u. repeat split; auto.
+    intros _. right. apply in_or_app. right. subst l la lb.
+    apply in_or_app. right. apply in_or_app. left. apply in_map. exact Hu.
+Qed.
+
+(* ------------------------------------------------------------------ *)
+(* crash cuts of one step *)
+
+Lemma key_eqb_eq : forall a b, key_eqb a b = true <-> a = b.
+Proof.
+  intros [a1 a2] [b1 b2]. unfold key_eqb. cbn [fst snd]. rewrite andb_true_iff, !N.eqb_eq.
+  split; [intros [-> ->]; reflexivity|intros E; inversion E; auto].
+Qed.
+
+Definition persisted (k : key) (effs : list effect) : list update :=
+  flat_map (fun e => match e with
+                     | Persist u => if key_eqb (ukey u) k then [u] else []
+                     | _ => [] end) effs.
+
+Lemma persisted_app : forall k a b, persisted k (a ++ b) = persisted k a ++ persisted k b.
+Proof. intros. unfold persisted. apply flat_map_app. Qed.
+
+Lemma durable_persisted : forall k effs img,
+  durable k effs img = fold_left persist_update (persisted k effs) img.
+Proof.
+  intros k effs. unfold durable. induction effs as [|e effs IH]; intros img; [reflexivity|].
+  cbn [fold_left]. rewrite IH. unfold persisted. cbn [flat_map].
+  destruct e; cbn [apply_effect app]; try reflexivity.
+  destruct (key_eqb (ukey u) k); reflexivity.
+Qed.
+
+Lemma persisted_none : forall k l, (forall u, ~ In (Persist u) l) -> persisted k l = [].
+Proof.
+  intros k l H. induction l as [|e l IH]; [reflexivity|].
+  unfold persisted. cbn [flat_map]. fold (persisted k l).
+  rewrite IH by (intros u Hu; apply (H u); right; exact Hu).
+  destruct e; try reflexivity. exfalso. apply (H u). left. reflexivity.
+Qed.
+
+Lemma persisted_save_part : forall k us,
+  persisted k (save_part us) = filter (fun u => key_eqb (ukey u) k) us.
+Proof.
+  intros k us. induction us as [|u us IH]; [reflexivity|].
+  unfold save_part, persisted in *. cbn [map flat_map filter]. rewrite IH.
+  destruct (key_eqb (ukey u) k); reflexivity.
+Qed.
+
+Lemma in_persisted : forall k l u, In (Persist u) l -> ukey u = k -> In u (persisted k l).
+Proof.
+  intros k l u H E. unfold persisted. apply in_flat_map. exists (Persist u). split; [exact H|].
+  apply key_eqb_eq in E. rewrite E. left. reflexivity.
+Qed.
+
+Lemma persisted_process_step : forall k us,
+  persisted k (process_step us) = filter (fun u => key_eqb (ukey u) k) us.
+Proof.
+  intros k us. rewrite process_step_shape.
+  change (StepNodes :: fast_part us ++ free_part us ++ save_part us ++ flag_part us ++ slow_part us ++ node_part us)
+    with ([StepNodes] ++ fast_part us ++ free_part us ++ save_part us ++ flag_part us ++ slow_part us ++ node_part us).
+  rewrite !persisted_app, persisted_save_part.
+  rewrite (persisted_none k [StepNodes]) by (intros u [H|[]]; discriminate).
+  rewrite (persisted_none k (fast_part us)).
+  2:{ intros u H. apply in_fast_part in H. destruct H as [u' [_ H]]. apply in_apply_effects in H.
+      destruct H as [_ [[H _]|[H _]]]; discriminate. }
+  rewrite (persisted_none k (free_part us)).
+  2:{ intros u H. apply in_free_part in H. destruct H as [u' [m [_ [_ [_ E]]]]]. discriminate. }
+  rewrite (persisted_none k (flag_part us)).
+  2:{ intros u H. apply in_flag_part in H. destruct H as [u' [_ E]]. discriminate. }
+  rewrite (persisted_none k (slow_part us)).
+  2:{ intros u H. apply in_slow_part in H. destruct H as [u' [_ H]]. apply in_apply_effects in H.
+      destruct H as [_ [[H _]|[H _]]]; discriminate. }
+  rewrite (persisted_none k (node_part us)).
+  2:{ intros u H. apply in_node_part in H. destruct H as [u' [_ H]]. apply in_node_effects in H.
+      destruct H as [H|[H|[m [_ [_ H]]]]]; discriminate. }
+  cbn [app]. rewrite app_nil_r. reflexivity.
+Qed.
+
+Lemma filter_key_nodup : forall us u,
+  NoDup (map ukey us) -> In u us -> filter (fun x => key_eqb (ukey x) (ukey u)) us = [u].
+Proof.
+  induction us as [|a us IH]; intros u Hnd Hin; [destruct Hin|].
+  cbn [map] in Hnd. inversion Hnd as [|? ? Hn Hnd']; subst.
+  cbn [filter]. destruct Hin as [Hin|Hin].
+  - subst a. replace (key_eqb (ukey u) (ukey u)) with true by (symmetry; apply key_eqb_eq; reflexivity).
+    f_equal. clear IH Hnd Hnd'. induction us as [|x us IHus]; [reflexivity|].
+    cbn [filter]. destruct (key_eqb (ukey x) (ukey u)) eqn:E.
+    + exfalso. apply key_eqb_eq in E. apply Hn. rewrite <- E. left. reflexivity.
+    + apply IHus. intros Hx. apply Hn. right. exact Hx.
+  - destruct (key_eqb (ukey a) (ukey u)) eqn:E.
+    + exfalso. apply key_eqb_eq in E. apply Hn. rewrite E. apply in_map. exact Hin.
+    + apply IH; assumption.
+Qed.
+
+Lemma app_singleton_in : forall {A} (a b : list A) (x : A), a ++ b = [x] -> In x a -> a = [x] /\ b = [].
+Proof.
+  intros A a b x H Hin. destruct a as [|y a]; [destruct Hin|].
+  simpl in H. inversion H as [[E1 E2]]. apply app_eq_nil in E2. destruct E2; subst. auto.
+Qed.
+
+Lemma covers_free : forall img m, is_free_order_message (m_type m) = true -> covers img m = true.
+Proof.
+  intros img m H. unfold covers, covers_code, claims_term, is_free. rewrite H. reflexivity.
+Qed.
+
+Lemma crash_cut_safe_proved : forall us (imgs : key -> image) n k m,
+  NoDup (map ukey us) ->
+  (forall u, In u us -> update_covers (imgs (ukey u)) u = true) ->
+  In (Send k m) (firstn n (process_step us)) ->
+  covers (crash n (process_step us) k (imgs k)) m = true.
+Proof.
+  intros us imgs n k m Hnd Hcov Hin.
+  destruct (is_free_order_message (m_type m)) eqn:F; [apply covers_free; exact F|].
+  apply in_split in Hin. destruct Hin as [l1 [l2 Hsplit]].
+  destruct (persist_before_send_proved us n l1 k m l2 Hsplit F) as [u [Hu [Hk [Hm Hp]]]].
+  unfold crash. rewrite durable_persisted.
+  assert (Hall : persisted k (firstn n (process_step us)) ++ persisted k (skipn n (process_step us)) = [u]).
+  { rewrite <- persisted_app, firstn_skipn, persisted_process_step. rewrite <- Hk.
+    apply filter_key_nodup; assumption. }
+  assert (Hinp : In u (persisted k (firstn n (process_step us)))).
+  { apply in_persisted; [|exact Hk]. rewrite Hsplit. apply in_or_app. left. exact Hp. }
+  destruct (app_singleton_in _ _ _ Hall Hinp) as [E _]. rewrite E. cbn [fold_left].
+  specialize (Hcov u Hu). unfold update_covers in Hcov. rewrite forallb_forall in Hcov.
+  rewrite <- Hk. apply Hcov. exact Hm.
+Qed.
+
+(* what [covers] says, spelled out *)
+Lemma covers_meaning_proved : forall img m,
+  covers img m = true -> claims_term m = true ->
+  m_term m <= i_term img /\
+  (is_vote_request m = true -> vote_ok img (m_term m) (m_from m) = true) /\
+  (is_grant m = true -> vote_ok img (m_term m) (m_to m) = true) /\
+  (is_ack m = true -> ack_ok img (m_term m) (m_logindex m) = true).
+Proof.
+  intros img m H C. unfold covers, covers_code in H. rewrite C in H. cbn [negb] in H.
+  destruct (m_term m <=? i_term img) eqn:T; cbn [negb] in H; [|discriminate].
+  apply N.leb_le in T. split; [exact T|].
+  destruct (is_vote_request m) eqn:V; cbn [andb] in H.
+  - destruct (vote_ok img (m_term m) (m_from m)) eqn:VO; cbn [negb] in H; [|discriminate].
+    destruct (is_grant m) eqn:G; cbn [andb] in H.
+    + destruct (vote_ok img (m_term m) (m_to m)) eqn:VG; cbn [negb] in H; [|discriminate].
+      destruct (is_ack m) eqn:A; cbn [andb] in H; [|repeat split; auto; discriminate].
+      destruct (ack_ok img (m_term m) (m_logindex m)); cbn [negb] in H; [|discriminate]. auto.
+    + destruct (is_ack m) eqn:A; cbn [andb] in H; [|repeat split; auto; discriminate].
+      destruct (ack_ok img (m_term m) (m_logindex m)); cbn [negb] in H; [|discriminate].
+      repeat split; auto; discriminate.
+  - destruct (is_grant m) eqn:G; cbn [andb] in H.
+    + destruct (vote_ok img (m_term m) (m_to m)) eqn:VG; cbn [negb] in H; [|discriminate].
+      destruct (is_ack m) eqn:A; cbn [andb] in H; [|repeat split; auto; discriminate].
+      destruct (ack_ok img (m_term m) (m_logindex m)); cbn [negb] in H; [|discriminate].
+      repeat split; auto; discriminate.
+    + destruct (is_ack m) eqn:A; cbn [andb] in H; [|repeat split; auto; discriminate].
+      destruct (ack_ok img (m_term m) (m_logindex m)); cbn [negb] in H; [|discriminate].
+      repeat split; auto; discriminate.
+Qed.
+
+(* ------------------------------------------------------------------ *)
+(* the step worker loop: what follows a batch follows the persist of its updates *)
+
+Lemma worker_loop_app : forall a b, worker_loop (a ++ b) = worker_loop a ++ worker_loop b.
+Proof. intros. unfold worker_loop. apply flat_map_app. Qed.
+
+Lemma prefix_by_length : forall {A} (X Y l1 l2 : list A),
+  X ++ Y = l1 ++ l2 -> (length X <= length l1)%nat -> exists l, l1 = X ++ l /\ Y = l ++ l2.
+Proof.
+  intros A X. induction X as [|a X IH]; intros Y l1 l2 H Hl.
+  - exists l1. simpl in *. auto.
+  - destruct l1 as [|b l1]; [simpl in Hl; lia|].
+    simpl in H. inversion H; subst. simpl in Hl.
+    destruct (IH Y l1 l2 H2 ltac:(lia)) as [l [E1 E2]]. exists l. subst. auto.
+Qed.
+
+Lemma step_nodes_only_first : forall us,
+  ~ In StepNodes (fast_part us ++ free_part us ++ save_part us ++ flag_part us ++ slow_part us ++ node_part us).
+Proof.
+  intros us H.
+  repeat (apply in_app_or in H; destruct H as [H|H]).
+  - apply in_fast_part in H. destruct H as [u [_ H]]. apply in_apply_effects in H.
+    destruct H as [_ [[H _]|[H _]]]; discriminate.
+  - apply in_free_part in H. destruct H as [u [m [_ [_ [_ E]]]]]. discriminate.
+  - apply in_map_iff in H. destruct H as [u [E _]]. discriminate.
+  - apply in_flag_part in H. destruct H as [u [_ E]]. discriminate.
+  - apply in_slow_part in H. destruct H as [u [_ H]]. apply in_apply_effects in H.
+    destruct H as [_ [[H _]|[H _]]]; discriminate.
+  - apply in_node_part in H. destruct H as [u [_ H]]. apply in_node_effects in H.
+    destruct H as [H|[H|[m [_ [_ H]]]]]; discriminate.
+Qed.
+
+Lemma persist_in_process_step : forall us u, In u us -> In (Persist u) (process_step us).
+Proof.
+  intros. rewrite process_step_split. apply in_or_app. left. apply persist_in_before_node. assumption.
+Qed.
+
+(* any effect beyond the effects of batch b is preceded by the persist of every update of b *)
+Lemma later_effects_after_persist_proved : forall pre b post u l1 l2,
+  In u b ->
+  worker_loop (pre ++ b :: post) = l1 ++ l2 ->
+  (length (worker_loop (pre ++ [b])) <= length l1)%nat ->
+  In (Persist u) l1.
+Proof.
+  intros pre b post u l1 l2 Hu H Hl.
+  replace (pre ++ b :: post) with ((pre ++ [b]) ++ post) in H by (rewrite <- app_assoc; reflexivity).
+  rewrite worker_loop_app in H.
+  destruct (prefix_by_length _ _ _ _ H Hl) as [l [E _]]. rewrite E.
+  apply in_or_app. left. rewrite worker_loop_app. apply in_or_app. right.
+  unfold worker_loop. cbn [flat_map]. rewrite app_nil_r. apply persist_in_process_step. exact Hu.
+Qed.
+
+(* the self-acknowledgement argument: a response to anything sent in batch b (or later) can
+   only be consumed by a later stepNode loop; every such loop is preceded by the persist of
+   every update of b, in particular of the entries the leader counted for itself at append
+   time *)
+Lemma leader_self_ack_after_persist_proved : forall pre b post u l1 k m l2 l3,
+  In u b ->
+  worker_loop (pre ++ b :: post) = l1 ++ Send k m :: l2 ++ StepNodes :: l3 ->
+  (length (worker_loop pre) <= length l1)%nat ->
+  In (Persist u) (l1 ++ Send k m :: l2).
+Proof.
+  intros pre b post u l1 k m l2 l3 Hu H Hl.
+  replace (pre ++ b :: post) with (pre ++ [b] ++ post) in H by reflexivity.
+  rewrite !worker_loop_app in H.
+  destruct (prefix_by_length _ _ _ _ H Hl) as [l [E1 E2]].
+  unfold worker_loop at 1 in E2. cbn [flat_map] in E2. rewrite app_nil_r in E2.
+  rewrite process_step_shape in E2.
+  destruct l as [|e l]; [simpl in E2; discriminate|].
+  simpl in E2. injection E2 as Ee E2. subst e.
+  set (rest := fast_part b ++ free_part b ++ save_part b ++ flag_part b ++ slow_part b ++ node_part b) in *.
+  assert (E3 : (l ++ Send k m :: l2) ++ StepNodes :: l3 = rest ++ worker_loop post).
+  { rewrite <- app_assoc. simpl. symmetry. exact E2. }
+  destruct (split_not_in_prefix _ _ _ _ _ E3 (step_nodes_only_first b)) as [l' [E4 _]].
+  subst l1. rewrite <- app_assoc. apply in_or_app. right.
+  change ((StepNodes :: l) ++ Send k m :: l2) with (StepNodes :: (l ++ Send k m :: l2)).
+  rewrite E4. right. apply in_or_app. left.
+  assert (Hp := persist_in_process_step b u Hu). rewrite process_step_shape in Hp.
+  destruct Hp as [Hp|Hp]; [discriminate|exact Hp].
+Qed.
+
+(* within a step, Peer.Commit (which advances savedTo) follows the persist *)
+Lemma commit_back_after_persist_proved : forall us n l1 u l2,
+  firstn n (process_step us) = l1 ++ CommitBack u :: l2 -> In (Persist u) l1.
+Proof.
+  intros us n l1 u l2 H.
+  apply firstn_split_full in H. remember (l2 ++ skipn n (process_step us)) as tl eqn:Etl. clear Etl.
+  rewrite process_step_split in H. symmetry in H.
+  assert (Hn : ~ In (CommitBack u) (before_node us)).
+  { intros Hin. apply in_before_node in Hin.
+    destruct Hin as [Hin|[Hin|[Hin|[Hin|[Hin|Hin]]]]].
+    - discriminate.
+    - apply in_fast_part in Hin. destruct Hin as [u' [_ Hin]]. apply in_apply_effects in Hin.
+      destruct Hin as [_ [[Hx _]|[Hx _]]]; discriminate.
+    - apply in_free_part in Hin. destruct Hin as [u' [m [_ [_ [_ E]]]]]. discriminate.
+    - apply in_map_iff in Hin. destruct Hin as [u' [E _]]. discriminate.
+    - apply in_flag_part in Hin. destruct Hin as [u' [_ E]]. discriminate.
+    - apply in_slow_part in Hin. destruct Hin as [u' [_ Hin]]. apply in_apply_effects in Hin.
+      destruct Hin as [_ [[Hx _]|[Hx _]]]; discriminate. }
+  destruct (split_not_in_prefix _ _ _ _ _ H Hn) as [l1' [E1 E2]].
+  assert (Hin : In (CommitBack u) (node_part us)) by (rewrite E2; apply in_or_app; right; left; reflexivity).
+  apply in_node_part in Hin. destruct Hin as [u' [Hu' Hin]]. apply in_node_effects in Hin.
+  destruct Hin as [Hin|[Hin|[m [_ [_ Hin]]]]]; try discriminate.
+  injection Hin as ->. rewrite E1. apply in_or_app. left. apply persist_in_before_node. exact Hu'.
+Qed.
+
+(* ------------------------------------------------------------------ *)
+(* soundness of the trace checker for every crash cut of a recorded trace *)
+
+Definition sends_of (evs : list tev) : list msg :=
+  flat_map (fun e => match e with TSend m => [m] | _ => [] end) evs.
+
+Record tinv (st : tstate) (sent : list msg) : Prop := {
+  inv_ack_term : ts_ack_term st <= i_term (ts_img st);
+  inv_cov : forall m, In m sent -> covers (ts_img st) m = true;
+  inv_acks : forall m, In m sent -> is_ack m = true -> claims_term m = true ->
+             m_term m < ts_ack_term st \/ (m_term m = ts_ack_term st /\ m_logindex m <= ts_ack_index st);
+  inv_ack_dur : i_term (ts_img st) = ts_ack_term st -> ts_ack_index st <= last_durable (ts_img st) }.
+
+Lemma tinv_init : forall img, tinv (tstate0 img) [].
+Proof.
+  intros img. split; cbn [tstate0 ts_img ts_ack_term ts_ack_index].
+  - lia.
+  - intros m [].
+  - intros m [].
+  - intros _. lia.
+Qed.
+
+Lemma covers_intro : forall img m,
+  (claims_term m = true ->
+   m_term m <= i_term img /\
+   (is_vote_request m = true -> vote_ok img (m_term m) (m_from m) = true) /\
+   (is_grant m = true -> vote_ok img (m_term m) (m_to m) = true) /\
+   (is_ack m = true -> ack_ok img (m_term m) (m_logindex m) = true)) ->
+  covers img m = true.
+Proof.
+  intros img m H. unfold covers, covers_code.
+  destruct (claims_term m); cbn [negb]; [|reflexivity].
+  destruct (H eq_refl) as [T [V [G A]]].
+  apply N.leb_le in T. rewrite T. cbn [negb].
+  destruct (is_vote_request m); cbn [andb].
+  - rewrite (V eq_refl). cbn [negb].
+    destruct (is_grant m); cbn [andb].
+    + rewrite (G eq_refl). cbn [negb]. destruct (is_ack m); cbn [andb]; [rewrite (A eq_refl)|]; reflexivity.
+    + destruct (is_ack m); cbn [andb]; [rewrite (A eq_refl)|]; reflexivity.
+  - destruct (is_grant m); cbn [andb].
+    + rewrite (G eq_refl). cbn [negb]. destruct (is_ack m); cbn [andb]; [rewrite (A eq_refl)|]; reflexivity.
+    + destruct (is_ack m); cbn [andb]; [rewrite (A eq_refl)|]; reflexivity.
+Qed.
+
+Lemma persist_code_zero : forall st img',
+  persist_code st img' = 0 ->
+  i_term (ts_img st) <= i_term img' /\
+  (i_term img' = i_term (ts_img st) -> i_vote (ts_img st) <> 0 -> i_vote img' = i_vote (ts_img st)) /\
+  (i_term img' = ts_ack_term st -> ts_ack_index st <= last_durable img').
+Proof.
+  intros st img' H. unfold persist_code in H.
+  destruct (i_term img' <? i_term (ts_img st)) eqn:A; [discriminate|]. apply N.ltb_ge in A.
+  destruct ((i_term img' =? i_term (ts_img st)) && negb (i_vote (ts_img st) =? 0) &&
+            negb (i_vote img' =? i_vote (ts_img st))) eqn:B; [discriminate|].
+  destruct ((i_term img' =? ts_ack_term st) && negb (ts_ack_index st <=? last_durable img')) eqn:C; [discriminate|].
+  split; [exact A|]. split.
+  - intros E V. apply N.eqb_eq in E. apply N.eqb_neq in V. rewrite E, V in B. cbn [andb negb] in B.
+    apply negb_false_iff in B. apply N.eqb_eq in B. exact B.
+  - intros E. apply N.eqb_eq in E. rewrite E in C. cbn [andb] in C.
+    apply negb_false_iff in C. apply N.leb_le in C. exact C.
+Qed.
+
+Lemma vote_ok_true : forall img t c,
+  vote_ok img t c = true <-> t < i_term img \/ (i_term img = t /\ i_vote img = c /\ c <> 0).
+Proof.
+  intros. unfold vote_ok. rewrite orb_true_iff, !andb_true_iff, N.ltb_lt, !N.eqb_eq, negb_true_iff, N.eqb_neq.
+  tauto.
+Qed.
+Lemma ack_ok_true : forall img t i,
+  ack_ok img t i = true <-> t < i_term img \/ i <= last_durable img.
+Proof. intros. unfold ack_ok. rewrite orb_true_iff, N.ltb_lt, N.leb_le. tauto. Qed.
+
+(* the shadow is replaced by an image that passed persist_code: everything sent stays covered *)
+Lemma tinv_new_image : forall st sent img',
+  tinv st sent -> persist_code st img' = 0 ->
+  tinv (mkTS img' (ts_ack_term st) (ts_ack_index st)) sent.
+Proof.
+  intros st sent img' [I1 I2 I3 I4] H.
+  destruct (persist_code_zero _ _ H) as [Hterm [Hvote Hack]].
+  split; cbn [ts_img ts_ack_term ts_ack_index].
+  - lia.
+  - intros m Hm. apply covers_intro. intros C.
+    destruct (covers_meaning_proved _ _ (I2 m Hm) C) as [T [V [G A]]].
+    split; [lia|]. split; [|split].
+    + intros Hv. specialize (V Hv). apply vote_ok_true in V. apply vote_ok_true.
+      destruct (N.lt_ge_cases (m_term m) (i_term img')) as [L|L]; [left; exact L|right].
+      assert (E : i_term img' = i_term (ts_img st)) by lia.
+      destruct V as [V|[V1 [V2 V3]]]; [lia|].
+      split; [lia|]. split; [|exact V3]. rewrite Hvote; [exact V2|exact E|congruence].
+    + intros Hg. specialize (G Hg). apply vote_ok_true in G. apply vote_ok_true.
+      destruct (N.lt_ge_cases (m_term m) (i_term img')) as [L|L]; [left; exact L|right].
+      assert (E : i_term img' = i_term (ts_img st)) by lia.
+      destruct G as [G|[G1 [G2 G3]]]; [lia|].
+      split; [lia|]. split; [|exact G3]. rewrite Hvote; [exact G2|exact E|congruence].
+    + intros Ha. apply ack_ok_true.
+      destruct (N.lt_ge_cases (m_term m) (i_term img')) as [L|L]; [left; exact L|right].
+      destruct (I3 m Hm Ha C) as [K|[K1 K2]]; [lia|].
+      assert (E : i_term img' = ts_ack_term st) by lia.
+      specialize (Hack E). lia.
+  - exact I3.
+  - exact Hack.
+Qed.
+
+Lemma tinv_step : forall st sent e st',
+  tinv st sent -> trace_step st e = (st', 0) ->
+  tinv st' (sent ++ sends_of [e]) /\ ts_img st' = tev_image (ts_img st) e.
+Proof.
+  intros st sent e st' I H. destruct e as [m|u|i|r|]; cbn [trace_step] in H.
+  - (* TSend *)
+    injection H as Hst Hc. cbn [sends_of flat_map app tev_image].
+    assert (Hcov : covers (ts_img st) m = true) by (unfold covers; rewrite Hc; reflexivity).
+    assert (Himg : ts_img (note_ack st m) = ts_img st).
+    { unfold note_ack. destruct (is_ack m && claims_term m); [|reflexivity].
+      destruct (ts_ack_term st <? m_term m); [reflexivity|].
+      destruct (ts_ack_term st =? m_term m); reflexivity. }
+    subst st'. split; [|exact Himg].
+    destruct I as [I1 I2 I3 I4].
+    unfold note_ack. destruct (is_ack m && claims_term m) eqn:AC.
+    + apply andb_true_iff in AC. destruct AC as [Ha Hcl].
+      destruct (covers_meaning_proved _ _ Hcov Hcl) as [T [_ [_ A]]].
+      specialize (A Ha). apply ack_ok_true in A.
+      destruct (ts_ack_term st <? m_term m) eqn:L1.
+      * apply N.ltb_lt in L1. split; cbn [ts_img ts_ack_term ts_ack_index].
+        -- exact T.
+        -- intros m' Hm'. apply in_app_or in Hm'. destruct Hm' as [Hm'|[<-|[]]]; auto.
+        -- intros m' Hm' Ha' Hc'. apply in_app_or in Hm'. destruct Hm' as [Hm'|[<-|[]]].
+           ++ destruct (I3 m' Hm' Ha' Hc') as [K|[K _]]; left; lia.
+           ++ right. split; [reflexivity|lia].
+        -- intros E. lia.
+      * apply N.ltb_ge in L1. destruct (ts_ack_term st =? m_term m) eqn:L2.
+        -- apply N.eqb_eq in L2. split; cbn [ts_img ts_ack_term ts_ack_index].
+           ++ exact I1.
+           ++ intros m' Hm'. apply in_app_or in Hm'. destruct Hm' as [Hm'|[<-|[]]]; auto.
+           ++ intros m' Hm' Ha' Hc'. apply in_app_or in Hm'. destruct Hm' as [Hm'|[<-|[]]].
+              ** destruct (I3 m' Hm' Ha' Hc') as [K|[K1 K2]]; [left; exact K|right; split; [exact K1|lia]].
+              ** right. split; [lia|lia].
+           ++ intros E. specialize (I4 E). lia.
+        -- apply N.eqb_neq in L2. split.
+           ++ exact I1.
+           ++ intros m' Hm'. apply in_app_or in Hm'. destruct Hm' as [Hm'|[<-|[]]]; auto.
+           ++ intros m' Hm' Ha' Hc'. apply in_app_or in Hm'. destruct Hm' as [Hm'|[<-|[]]]; auto.
+              left. lia.
+           ++ exact I4.
+    + split.
+      * exact I1.
+      * intros m' Hm'. apply in_app_or in Hm'. destruct Hm' as [Hm'|[<-|[]]]; auto.
+      * intros m' Hm' Ha' Hc'. apply in_app_or in Hm'. destruct Hm' as [Hm'|[<-|[]]]; auto.
+        rewrite Ha', Hc' in AC. discriminate.
+      * exact I4.
+  - (* TPersist *)
+    injection H as Hst Hc. subst st'. cbn [sends_of flat_map app tev_image ts_img]. rewrite app_nil_r.
+    split; [|reflexivity]. apply tinv_new_image; assumption.
+  - (* TApply *)
+    injection H as Hst Hc. subst st'. cbn [sends_of flat_map app tev_image]. rewrite app_nil_r.
+    split; [exact I|reflexivity].
+  - (* TRecover *)
+    injection H as Hst Hc. subst st'. cbn [sends_of flat_map app tev_image ts_img]. rewrite app_nil_r.
+    split; [|reflexivity]. apply tinv_new_image; [assumption|].
+    unfold recover_code in Hc. destruct (persist_code st r =? 0) eqn:P; cbn [negb] in Hc.
+    + apply N.eqb_eq in P. exact P.
+    + apply N.eqb_neq in P. congruence.
+  - (* TLost *)
+    discriminate.
+Qed.
+
+Lemma sends_of_app : forall a b, sends_of (a ++ b) = sends_of a ++ sends_of b.
+Proof. intros. unfold sends_of. apply flat_map_app. Qed.
+
+Lemma trace_run_sound : forall evs st pos sent stf p,
+  tinv st sent -> trace_run st pos evs = (stf, p, 0) ->
+  forall n m, In m (sent ++ sends_of (firstn n evs)) ->
+  covers (trace_image (ts_img st) (firstn n evs)) m = true.
+Proof.
+  induction evs as [|e evs IH]; intros st pos sent stf p I H n m Hm.
+  - rewrite firstn_nil in *. cbn [sends_of flat_map trace_image fold_left] in *. rewrite app_nil_r in Hm.
+    apply (inv_cov _ _ I). exact Hm.
+  - destruct n as [|n].
+    + cbn [firstn sends_of flat_map trace_image fold_left] in *. rewrite app_nil_r in Hm.
+      apply (inv_cov _ _ I). exact Hm.
+    + cbn [trace_run] in H. destruct (trace_step st e) as [st' c] eqn:S.
+      destruct (c =? 0) eqn:C.
+      * apply N.eqb_eq in C. subst c.
+        destruct (tinv_step _ _ _ _ I S) as [I' Himg].
+        cbn [firstn]. unfold trace_image. cbn [fold_left]. rewrite <- Himg.
+        apply (IH st' (pos + 1) (sent ++ sends_of [e]) stf p I' H n m).
+        cbn [firstn] in Hm. change (e :: firstn n evs) with ([e] ++ firstn n evs) in Hm.
+        rewrite sends_of_app, app_assoc in Hm. exact Hm.
+      * injection H as _ _ Hc. apply N.eqb_neq in C. congruence.
+Qed.
+
+Lemma trace_ok_crash_safe_proved : forall img evs,
+  trace_ok img evs = true ->
+  forall n m, In (TSend m) (firstn n evs) ->
+  covers (trace_image img (firstn n evs)) m = true.
+Proof.
+  intros img evs H n m Hin. unfold trace_ok in H.
+  destruct (trace_run (tstate0 img) 0 evs) as [[stf p] c] eqn:R.
+  apply N.eqb_eq in H. subst c.
+  apply (trace_run_sound evs (tstate0 img) 0 [] stf p (tinv_init img) R n m).
+  cbn [app]. unfold sends_of. apply in_flat_map. exists (TSend m). split; [exact Hin|left; reflexivity].
+Qed.
+
+(* along an accepted trace the durable term never decreases, the vote of a term never
+   changes once cast, and nothing is handed to the state machine before it is durable *)
+Lemma trace_ok_apply_durable_proved : forall img evs,
+  trace_ok img evs = true ->
+  forall l1 i l2, evs = l1 ++ TApply i :: l2 -> i <= last_durable (trace_image img l1).
+Proof.
+  intros img evs H l1 i l2 E. unfold trace_ok in H.
+  destruct (trace_run (tstate0 img) 0 evs) as [[stf p] c] eqn:R.
+  apply N.eqb_eq in H. subst c evs.
+  assert (G : forall l st pos, trace_run st pos (l ++ TApply i :: l2) = (stf, p, 0) ->
+              i <= last_durable (trace_image (ts_img st) l)).
+  { induction l as [|e l IH]; intros st pos Hr.
+    - cbn [app trace_run trace_step] in Hr.
+      destruct (i <=? last_durable (ts_img st)) eqn:L.
+      + apply N.leb_le in L. exact L.
+      + cbn in Hr. injection Hr as _ _ Hc. discriminate.
+    - cbn [app trace_run] in Hr. destruct (trace_step st e) as [st' c] eqn:S.
+      destruct (c =? 0) eqn:C.
+      + unfold trace_image. cbn [fold_left].
+        assert (Himg : ts_img st' = tev_image (ts_img st) e).
+        { destruct e; cbn [trace_step] in S; injection S as <- _; cbn [tev_image ts_img]; try reflexivity.
+          unfold note_ack. destruct (is_ack m && claims_term m); [|reflexivity].
+          destruct (ts_ack_term st <? m_term m); [reflexivity|].
+          destruct (ts_ack_term st =? m_term m); reflexivity. }
+        rewrite <- Himg. apply (IH st' (pos + 1) Hr).
+      + injection Hr as _ _ Hc. apply N.eqb_neq in C. congruence. }
+  apply (G l1 (tstate0 img) 0 R).
+Qed.
